@@ -356,6 +356,7 @@ func (db *DB) Merge() error {
 				if err == io.EOF {
 					break
 				}
+				db.isMerging = false
 				f.rwManager.Close()
 				return fmt.Errorf("when merge operation build hintIndex readAt err: %s", err)
 			}
@@ -374,6 +375,8 @@ func (db *DB) Merge() error {
 
 		f.rwManager.Close()
 	}
+
+	db.isMerging = false
 
 	return nil
 }
